@@ -72,6 +72,22 @@ def handle : P String := do
     let o ← nextNat
     let f ← nextNat
     pure (showGates (hwEncoder n k (o != 0) (f != 0)))
+  | "TREE" =>
+    -- closed form of the tree loader on 2^m qubits (T20_unary_tree_gates)
+    let m ← nextNat
+    pure (showGates (({ kind := .X, q0 := 2 ^ m - 1 } : GD) :: treeGates m))
+  | "SHAPE" =>
+    -- admissible initial string of the walk, where the walk ends, and the model's own walk
+    let kind ← nextNat
+    let w ← nextNat
+    let z ← nextNat
+    let st := seStart kind w z
+    pure (s!"{seValid kind w z} {showBits st} {showBits (seEnd kind w z)} {showBits (ehrLast st)} {(ehrlichStrings st).length}")
+  | "HSINITS" =>
+    -- initial strings of the Hamming-weight blocks of the hyperspherical binary encoder
+    let n ← nextNat
+    pure (" ".intercalate ((hsInits n).map showBits) ++ " # " ++
+      " ".intercalate ((List.range (n - 1)).map (fun i => showBits (hsInitClosed n (i + 1)))))
   | "" => pure ""
   | c => pure s!"bad-op {c}"
 
